@@ -3,6 +3,7 @@ import DryocVerif.Proofs.Inst
 import DryocVerif.Proofs.SecretBoxExtra
 import DryocVerif.Proofs.SecretBoxExtra2
 import DryocVerif.Spec.NaCl
+import DryocVerif.Properties.C05
 /-
 C01 — secretbox / box / sealed box: every open ∘ seal pairing is the identity, all API forms
 produce one wire format, and that wire format is the NaCl construction.
@@ -18,6 +19,16 @@ Section 8 (second review round; helper lemmas in `DryocVerif/Proofs/SecretBoxExt
 precomputed-key (`afternm`, `precalc_*`) forms, the sealed-box round trips for `Model.boxPrims`, and
 over-long caller buffers.
 
+OPEN FINDING F17 (recorded under property C05; third review).  `Spec.NaCl.beforenm` / `box` / `boxOpen` /
+`boxSeal` / `sealOpen` are the NaCl CONSTRUCTION, total in the public key.  They are NOT libsodium on small-order
+peer keys: libsodium's `crypto_box_beforenm` returns −1 when the X25519 output is all-zero, so `crypto_box_easy`,
+`_detached`, `_open_easy`, `_open_detached`, `crypto_box_seal`, `crypto_box_seal_open` all refuse such a key, while
+dryoc's `crypto_box_curve25519xsalsa20poly1305_beforenm` is infallible.  Every `model_eq_spec_*` theorem about the box
+and sealed-box forms below therefore says "= the NaCl construction; = libsodium whenever the shared secret is non-zero".
+Section 9 has libsodium's behaviour (`Spec.NaCl.beforenmSodium` …), the corollaries under `x25519 sk pk ≠ 0³²`
+(`model_eq_sodium_*`) and the honest witnesses of the difference: `boxOpenEasy_accepts_small_order`,
+`sealOpen_accepts_small_order_epk` (dryoc ACCEPTS a box anyone can compute; libsodium returns −1).
+
 OBSERVATIONS (stated as theorems below, not defects of the model):
 * Ephemeral public key of a sealed box.  In the model `epk = P.dhBase esk`, and for `Model.boxPrims` /
   `specPrims` `dhBase = Spec.X25519.x25519Base` (the Montgomery ladder on u = 9).  The Rust derives it
@@ -32,7 +43,8 @@ OBSERVATIONS (stated as theorems below, not defects of the model):
   to the front of the caller's buffer and then encrypt AND authenticate the WHOLE buffer.  With an over-long
   buffer the output is libsodium's box of `message ‖ trailing buffer bytes`, not of `message`
   (`easy_oversized_*`, `boxSeal_oversized_boxPrims`): the 16-byte tag covers the trailing bytes, so the first
-  `message.len() + 16` bytes are NOT a valid box.  The object layer always sizes exactly.
+  `message.len() + 16` bytes are NOT a valid box.  The object layer always sizes exactly.  These theorems assert
+  behaviour NO differential run exercises (every seal request of the harness passes an exactly sized buffer).
 -/
 namespace DryocVerif.Properties.C01
 open DryocVerif DryocVerif.Model.SecretBox
@@ -352,6 +364,13 @@ theorem forms_agree_objSeal_boxSeal (P : Prims) (ct0 m rpk esk : Bytes) (b : Box
   rw [boxSeal_eq P ct0 m rpk esk hct0]
   simp [toBytes]
 
+/-- `DryocBox::seal` never fails and its `to_vec()` is what `crypto_box_seal` writes into an exactly sized buffer — the
+form `Driver/Box.lean` relies on since the third review (`boxobj_seal` runs the OBJECT model `objSeal`, not `boxSeal`;
+the answers are identical by this theorem) -/
+theorem objSeal_toBytes_eq_boxSeal (P : Prims) (ct0 m rpk esk : Bytes) (hct0 : ct0.length = m.length + 48) :
+    ∃ b, objSeal P m rpk esk = .ok b ∧ boxSeal P ct0 m rpk esk = .ok (toBytes b) :=
+  ⟨_, objSeal_eq P m rpk esk, forms_agree_objSeal_boxSeal P ct0 m rpk esk _ hct0 (objSeal_eq P m rpk esk)⟩
+
 /-- `VecBox::into_vec` (resize, rotate, copy tag) = `to_vec` for a box without ephemeral key -/
 theorem forms_agree_intoVec_toBytes (b : Box) (hepk : b.epk = none) : intoVec b = toBytes b := by
   have h := rotateRight_append_zeros b.data
@@ -403,7 +422,8 @@ theorem model_eq_spec_boxEasy (m n pk sk : Bytes) :
   rw [boxEasy_eq_easy specPrims _ m n pk sk (by simp [zeros]), model_eq_spec_easy]
   rfl
 
-/-- sealed box with the specification primitives = libsodium's sealed box, with the ephemeral public key
+/-- sealed box with the specification primitives = the sealed-box construction (= libsodium's whenever the shared
+secret is non-zero, see F17), with the ephemeral public key
 `Spec.X25519.x25519Base esk` (ladder on u = 9).  The Rust derives the ephemeral public key through the
 Edwards base table: this speaks about the code only under `C05.BaseEdwardsOK`. -/
 theorem model_eq_spec_boxSeal (m rpk esk : Bytes) :
@@ -799,22 +819,28 @@ theorem model_eq_spec_objEncrypt_boxPrims (m n k : Bytes) :
     ∃ b, objEncrypt boxPrims m n k = .ok b ∧ toBytes b = Spec.NaCl.secretbox k n m :=
   ⟨_, SecretBoxExtra.objEncrypt_boxPrims m n k, List.take_append_drop 16 _⟩
 
-/-- `crypto_box_easy` = NaCl's `box` -/
+/-- `crypto_box_easy` = the NaCl construction `box` (every `pk`, `sk`).  = libsodium's `crypto_box_easy` whenever the
+X25519 shared secret is non-zero (`model_eq_sodium_boxEasy`); for a small-order `pk` libsodium returns −1 and dryoc
+does not: finding F17 (docstring restated after the third review, statement unchanged). -/
 theorem model_eq_spec_boxEasy_boxPrims (ct0 m n pk sk : Bytes) (h : ct0.length = m.length + 16) :
     boxEasy boxPrims ct0 m n pk sk = .ok (Spec.NaCl.box pk sk n m) :=
   SecretBoxExtra.boxEasy_boxPrims ct0 m n pk sk h
 
+/-- (= the NaCl construction; = libsodium whenever the shared secret is non-zero, see F17) -/
 theorem model_eq_spec_boxEasyInplace_boxPrims (m t n pk sk : Bytes) (ht : t.length = 16) :
     boxEasyInplace boxPrims (m ++ t) n pk sk = .ok (Spec.NaCl.box pk sk n m) :=
   SecretBoxExtra.boxEasyInplace_boxPrims m t n pk sk ht
 
+/-- (= the NaCl construction; = libsodium whenever the shared secret is non-zero, see F17) -/
 theorem model_eq_spec_boxDetached_boxPrims (ct0 m n pk sk : Bytes) (h : ct0.length = m.length) :
     boxDetached boxPrims ct0 m n pk sk
       = .ok ((Spec.NaCl.box pk sk n m).drop 16, (Spec.NaCl.box pk sk n m).take 16) :=
   SecretBoxExtra.boxDetached_boxPrims ct0 m n pk sk h
 
-/-- `crypto_box_seal` with ephemeral secret `esk` = libsodium's sealed box
-`epk ‖ box(m, nonce = BLAKE2b-24(epk ‖ rpk), rpk, esk)`.
+/-- `crypto_box_seal` with ephemeral secret `esk` = the NaCl/libsodium sealed-box CONSTRUCTION
+`epk ‖ box(m, nonce = BLAKE2b-24(epk ‖ rpk), rpk, esk)` — for every `rpk`.  = libsodium's `crypto_box_seal` whenever
+`X25519(esk, rpk)` is non-zero (`model_eq_sodium_boxSeal`); for a small-order recipient key libsodium returns −1, dryoc
+seals: finding F17 (docstring restated after the third review, statement unchanged).
 Here `epk = boxPrims.dhBase esk = Spec.X25519.x25519Base esk`, the Montgomery ladder on u = 9; the Rust
 obtains `epk` from `crypto_box_keypair` → `crypto_scalarmult_curve25519_base` (Edwards base-point table,
 scalar reduced mod L, then `to_montgomery`).  The statement transfers to the Rust function only under the
@@ -823,7 +849,8 @@ theorem model_eq_spec_boxSeal_boxPrims (ct0 m rpk esk : Bytes) (h : ct0.length =
     boxSeal boxPrims ct0 m rpk esk = .ok (Spec.NaCl.boxSeal rpk esk m) :=
   SecretBoxExtra.boxSeal_boxPrims ct0 m rpk esk h
 
-/-- `DryocBox::seal(...).to_vec()` = libsodium's sealed box (ephemeral public key = ladder on u = 9; the
+/-- `DryocBox::seal(...).to_vec()` = the sealed-box construction (= libsodium whenever the shared secret is non-zero,
+see F17; ephemeral public key = ladder on u = 9; the
 Rust's comes from the Edwards base table: transfers to the code only under `C05.BaseEdwardsOK`) -/
 theorem model_eq_spec_objSeal_boxPrims (m rpk esk : Bytes) :
     ∃ b, objSeal boxPrims m rpk esk = .ok b ∧ toBytes b = Spec.NaCl.boxSeal rpk esk m :=
@@ -897,7 +924,11 @@ theorem model_eq_spec_objDecrypt_boxPrims (b : Box) (n k : Bytes) (ht : b.tag.le
         | none => .err :=
   SecretBoxExtra.objDecrypt_boxPrims b n k ht
 
-/-- complete decision of `crypto_box_open_easy` against NaCl's `box_open` -/
+/-- complete decision of `crypto_box_open_easy` against the NaCl CONSTRUCTION `box_open` (every `pk`, `sk`).  This is
+libsodium's decision whenever the X25519 shared secret is non-zero (`model_eq_sodium_boxOpenEasy`); for a small-order
+`pk` libsodium's `crypto_box_open_easy` returns −1 on EVERY input while dryoc opens with the key `HSalsa20(0³², 0¹⁶)`
+(`boxOpenEasy_accepts_small_order`): finding F17.  Docstring restated after the third review (it used to read
+"against NaCl's `box_open`" without the caveat); statement unchanged. -/
 theorem model_eq_spec_boxOpenEasy_decision_boxPrims (buf ct n pk sk : Bytes) :
     boxOpenEasy boxPrims buf ct n pk sk
       = if 16 ≤ ct.length ∧ buf.length < ct.length - 16 then ⟨.panic, buf⟩
@@ -906,15 +937,18 @@ theorem model_eq_spec_boxOpenEasy_decision_boxPrims (buf ct n pk sk : Bytes) :
           | none => ⟨.err, buf⟩ :=
   SecretBoxExtra.boxOpenEasy_boxPrims buf ct n pk sk
 
+/-- (= the NaCl construction; = libsodium whenever the shared secret is non-zero, see F17) -/
 theorem model_eq_spec_boxOpenEasy_boxPrims (buf ct n pk sk m : Bytes) (hbuf : buf.length = ct.length - 16) :
     boxOpenEasy boxPrims buf ct n pk sk = ⟨.ok (), m⟩ ↔ Spec.NaCl.boxOpen pk sk n ct = some m :=
   SecretBoxExtra.boxOpenEasy_boxPrims_iff buf ct n pk sk m hbuf
 
+/-- (= the NaCl construction; = libsodium whenever the shared secret is non-zero, see F17) -/
 theorem model_eq_spec_boxOpenEasy_accepts_boxPrims (buf ct n pk sk : Bytes) :
     (boxOpenEasy boxPrims buf ct n pk sk).res = .ok () ↔
       ct.length - 16 ≤ buf.length ∧ (Spec.NaCl.boxOpen pk sk n ct).isSome :=
   SecretBoxExtra.boxOpenEasy_boxPrims_accepts_iff buf ct n pk sk
 
+/-- (= the NaCl construction; = libsodium whenever the shared secret is non-zero, see F17) -/
 theorem model_eq_spec_boxOpenEasyInplace_boxPrims (ct n pk sk : Bytes) :
     boxOpenEasyInplace boxPrims ct n pk sk
       = match Spec.NaCl.boxOpen pk sk n ct with
@@ -922,6 +956,8 @@ theorem model_eq_spec_boxOpenEasyInplace_boxPrims (ct n pk sk : Bytes) :
         | none => ⟨.err, ct⟩ :=
   SecretBoxExtra.boxOpenEasyInplace_boxPrims ct n pk sk
 
+/-- `crypto_box_open_detached` against the NaCl construction (= libsodium whenever the shared secret is non-zero:
+`model_eq_sodium_boxOpenDetached`; see F17) -/
 theorem model_eq_spec_boxOpenDetached_boxPrims (buf tag c n pk sk : Bytes) (ht : tag.length = 16) :
     boxOpenDetached boxPrims buf tag c n pk sk
       = if buf.length < c.length then ⟨.panic, buf⟩
@@ -930,6 +966,7 @@ theorem model_eq_spec_boxOpenDetached_boxPrims (buf tag c n pk sk : Bytes) (ht :
           | none => ⟨.err, buf⟩ :=
   SecretBoxExtra.boxOpenDetached_boxPrims buf tag c n pk sk ht
 
+/-- `DryocBox::decrypt` against the NaCl construction (= libsodium whenever the shared secret is non-zero, see F17) -/
 theorem model_eq_spec_objBoxDecrypt_boxPrims (b : Box) (n pk sk : Bytes) (ht : b.tag.length = 16) :
     objBoxDecrypt boxPrims b n pk sk
       = match Spec.NaCl.boxOpen pk sk n (b.tag ++ b.data) with
@@ -937,9 +974,13 @@ theorem model_eq_spec_objBoxDecrypt_boxPrims (b : Box) (n pk sk : Bytes) (ht : b
         | none => .err :=
   SecretBoxExtra.objBoxDecrypt_boxPrims b n pk sk ht
 
-/-- **Complete decision of `crypto_box_seal_open`** against libsodium's sealed-box opening: `Err` if the
-message buffer does not have exactly the plaintext length, otherwise `Ok` with the specification's
-plaintext iff the specification opens the sealed box (never a panic). -/
+/-- **Complete decision of `crypto_box_seal_open`** against the sealed-box CONSTRUCTION `Spec.NaCl.sealOpen` (every
+recipient key pair, every ciphertext): `Err` if the message buffer does not have exactly the plaintext length,
+otherwise `Ok` with the specification's plaintext iff the specification opens the sealed box (never a panic).
+This is libsodium's `crypto_box_seal_open` whenever `X25519(rsk, epk)` is non-zero (`model_eq_sodium_sealOpen`); for
+a small-order ephemeral key in the first 32 bytes libsodium returns −1 on every input while dryoc opens
+(`sealOpen_accepts_small_order_epk`): finding F17.  Docstring restated after the third review (it used to read
+"against libsodium's sealed-box opening"); statement unchanged. -/
 theorem model_eq_spec_sealOpen_decision_boxPrims (buf ct rpk rsk : Bytes) :
     sealOpen boxPrims buf ct rpk rsk
       = if buf.length ≠ ct.length - 48 then ⟨.err, buf⟩
@@ -948,18 +989,20 @@ theorem model_eq_spec_sealOpen_decision_boxPrims (buf ct rpk rsk : Bytes) :
           | none => ⟨.err, buf⟩ :=
   SecretBoxExtra.sealOpen_boxPrims buf ct rpk rsk
 
+/-- (= the sealed-box construction; = libsodium whenever the shared secret is non-zero, see F17) -/
 theorem model_eq_spec_sealOpen_boxPrims (buf ct rpk rsk m : Bytes) :
     sealOpen boxPrims buf ct rpk rsk = ⟨.ok (), m⟩ ↔
       buf.length = ct.length - 48 ∧ Spec.NaCl.sealOpen rpk rsk ct = some m :=
   SecretBoxExtra.sealOpen_boxPrims_iff buf ct rpk rsk m
 
+/-- (= the sealed-box construction; = libsodium whenever the shared secret is non-zero, see F17) -/
 theorem model_eq_spec_sealOpen_accepts_boxPrims (buf ct rpk rsk : Bytes) :
     (sealOpen boxPrims buf ct rpk rsk).res = .ok () ↔
       buf.length = ct.length - 48 ∧ (Spec.NaCl.sealOpen rpk rsk ct).isSome :=
   SecretBoxExtra.sealOpen_boxPrims_accepts_iff buf ct rpk rsk
 
-/-- `DryocBox::unseal` = libsodium's sealed-box opening of `to_vec()` (32-byte ephemeral key and 16-byte
-tag are the Rust array types) -/
+/-- `DryocBox::unseal` = the sealed-box construction's opening of `to_vec()` (32-byte ephemeral key and 16-byte
+tag are the Rust array types); = libsodium's whenever the shared secret is non-zero, see F17 -/
 theorem model_eq_spec_objUnseal_boxPrims (b : Box) (epk rpk rsk : Bytes) (he : b.epk = some epk)
     (hel : epk.length = 32) (ht : b.tag.length = 16) :
     objUnseal boxPrims b rpk rsk
@@ -1267,7 +1310,8 @@ authenticates ALL of `ciphertext`; `crypto_secretbox_easy`, `crypto_box_easy`, `
 `crypto_box_seal` (which checks only `ciphertext.len() ≥ message.len() + 48`) inherit this.  With an
 over-long buffer the trailing buffer bytes are sealed as if they were message bytes. -/
 
-/-- `crypto_secretbox_detached` with an over-long buffer = the exactly sized call on `m ‖ trailing bytes` -/
+/-- `crypto_secretbox_detached` with an over-long buffer = the exactly sized call on `m ‖ trailing bytes` (not exercised
+by the differential run: all seal requests pass exactly sized buffers) -/
 theorem detached_oversized_eq_exact (P : Prims) (ct m n k : Bytes) (h : m.length ≤ ct.length) :
     detached P ct m n k = .ok (detachedInplace P (m ++ ct.drop m.length) n k) ∧
     (m ++ ct.drop m.length).length = ct.length :=
@@ -1275,35 +1319,40 @@ theorem detached_oversized_eq_exact (P : Prims) (ct m n k : Bytes) (h : m.length
    SecretBoxExtra2.oversized_length ct m h⟩
 
 /-- `crypto_secretbox_easy` with an over-long buffer = the exactly sized call (any buffer `ct'` of the same
-length) on the message `m ‖ ct[m.len()+16 ..]` -/
+length) on the message `m ‖ ct[m.len()+16 ..]`.  NOT exercised by the differential run (all seal requests pass exactly
+sized buffers): a statement about the model of the Rust text only. -/
 theorem easy_oversized_eq_exact (P : Prims) (ct ct' m n k : Bytes) (h : m.length + 16 ≤ ct.length)
     (hct' : ct'.length = ct.length) :
     easy P ct m n k = easy P ct' (m ++ ct.drop (m.length + 16)) n k :=
   SecretBoxExtra2.easy_oversized_eq_exact P ct ct' m n k h hct'
 
-/-- with the driver's primitives: NaCl's secretbox of `m ‖ trailing bytes` (every key and nonce) … -/
+/-- with the driver's primitives: NaCl's secretbox of `m ‖ trailing bytes` (every key and nonce) …  NOT exercised by
+the differential run (all seal requests pass exactly sized buffers). -/
 theorem easy_oversized_boxPrims (ct m n k : Bytes) (h : m.length + 16 ≤ ct.length) :
     easy boxPrims ct m n k = .ok (Spec.NaCl.secretbox k n (m ++ ct.drop (m.length + 16))) :=
   SecretBoxExtra2.easy_oversized_boxPrims ct m n k h
 
+/-- (not exercised by the differential run: all seal requests pass exactly sized buffers) -/
 theorem detached_oversized_boxPrims (ct m n k : Bytes) (h : m.length ≤ ct.length) :
     detached boxPrims ct m n k
       = .ok ((Spec.NaCl.secretbox k n (m ++ ct.drop m.length)).drop 16,
              (Spec.NaCl.secretbox k n (m ++ ct.drop m.length)).take 16) :=
   SecretBoxExtra2.detached_oversized_boxPrims ct m n k h
 
+/-- (not exercised by the differential run: all seal requests pass exactly sized buffers) -/
 theorem boxEasy_oversized_boxPrims (ct m n pk sk : Bytes) (h : m.length + 16 ≤ ct.length) :
     boxEasy boxPrims ct m n pk sk = .ok (Spec.NaCl.box pk sk n (m ++ ct.drop (m.length + 16))) :=
   SecretBoxExtra2.boxEasy_oversized_boxPrims ct m n pk sk h
 
 /-- `crypto_box_seal` accepts `ciphertext.len() ≥ message.len() + 48` and then writes libsodium's sealed
-box of `m ‖ ciphertext[m.len()+48 ..]` (the buffer's own trailing bytes), filling the whole buffer -/
+box of `m ‖ ciphertext[m.len()+48 ..]` (the buffer's own trailing bytes), filling the whole buffer.  NOT exercised by
+the differential run (all seal requests pass exactly sized buffers): a statement about the model of the Rust text. -/
 theorem boxSeal_oversized_boxPrims (ct m rpk esk : Bytes) (h : m.length + 48 ≤ ct.length) :
     boxSeal boxPrims ct m rpk esk = .ok (Spec.NaCl.boxSeal rpk esk (m ++ ct.drop (m.length + 48))) :=
   SecretBoxExtra2.boxSeal_oversized_boxPrims ct m rpk esk h
 
 /-- … which is NOT libsodium's box of `m` when the buffer is strictly over-long (24-byte nonce): the output
-is longer than `m.len() + 16` -/
+is longer than `m.len() + 16`.  (Not exercised by the differential run: all seal requests pass exactly sized buffers.) -/
 theorem easy_oversized_ne_spec_boxPrims (ct m n k : Bytes) (hn : 24 ≤ n.length)
     (h : m.length + 16 < ct.length) :
     easy boxPrims ct m n k ≠ .ok (Spec.NaCl.secretbox k n m) :=
@@ -1350,4 +1399,287 @@ theorem easy_oversized_example :
 
 end Round2
 
+/-! ## 9. third review: libsodium's refusal of the all-zero shared secret (finding F17)
+
+`Spec.NaCl.beforenmSodium` is libsodium's `crypto_box_beforenm` (`none` = return value −1 when the X25519 output is
+all-zero); `boxSodium`, `boxOpenSodium`, `boxSealSodium`, `sealOpenSodium` are the functions libsodium builds on it.
+The `model_eq_spec_*` theorems of sections 4, 7 and 8 compare dryoc with the NaCl CONSTRUCTION, which is total in the
+public key; under the hypothesis "the shared secret is not all-zero" they are statements about libsodium
+(`model_eq_sodium_*`), and for a small-order public key they are NOT: `boxOpenEasy_accepts_small_order`,
+`sealOpen_accepts_small_order_epk`. -/
+
+section Sodium
+open DryocVerif.Model (boxPrims)
+open DryocVerif.Proofs
+
+/-- libsodium's `crypto_box_beforenm` is the construction's whenever the shared secret is not all-zero -/
+theorem beforenmSodium_eq (pk sk : Bytes) (h : Spec.X25519.x25519 sk pk ≠ zeros 32) :
+    Spec.NaCl.beforenmSodium pk sk = some (Spec.NaCl.beforenm pk sk) :=
+  Spec.NaCl.beforenmSodium_eq pk sk h
+
+/-- … and it refuses exactly the all-zero shared secret -/
+theorem beforenmSodium_none_iff (pk sk : Bytes) :
+    Spec.NaCl.beforenmSodium pk sk = none ↔ Spec.X25519.x25519 sk pk = zeros 32 :=
+  Spec.NaCl.beforenmSodium_none_iff pk sk
+
+/-- dryoc's `crypto_box_beforenm` (driver's primitives) against libsodium's: equal whenever libsodium's succeeds;
+dryoc's is total -/
+theorem model_eq_sodium_beforenm (pk sk : Bytes) (h : Spec.X25519.x25519 sk pk ≠ zeros 32) :
+    Spec.NaCl.beforenmSodium pk sk = some (beforenm boxPrims pk sk) :=
+  Spec.NaCl.beforenmSodium_eq pk sk h
+
+/-- `crypto_box_easy` = libsodium's `crypto_box_easy`, for every key pair whose shared secret is not all-zero -/
+theorem model_eq_sodium_boxEasy (ct0 m n pk sk : Bytes) (h : ct0.length = m.length + 16)
+    (hs : Spec.X25519.x25519 sk pk ≠ zeros 32) :
+    ∃ b, boxEasy boxPrims ct0 m n pk sk = .ok b ∧ Spec.NaCl.boxSodium pk sk n m = some b :=
+  ⟨_, model_eq_spec_boxEasy_boxPrims ct0 m n pk sk h, Spec.NaCl.boxSodium_eq pk sk n m hs⟩
+
+/-- **complete decision of `crypto_box_open_easy` against libsodium's `crypto_box_open_easy`**, for every key pair
+whose shared secret is not all-zero -/
+theorem model_eq_sodium_boxOpenEasy (buf ct n pk sk : Bytes) (h : Spec.X25519.x25519 sk pk ≠ zeros 32) :
+    boxOpenEasy boxPrims buf ct n pk sk
+      = if 16 ≤ ct.length ∧ buf.length < ct.length - 16 then ⟨.panic, buf⟩
+        else match Spec.NaCl.boxOpenSodium pk sk n ct with
+          | some m => ⟨.ok (), m ++ buf.drop (ct.length - 16)⟩
+          | none => ⟨.err, buf⟩ := by
+  rw [Spec.NaCl.boxOpenSodium_eq pk sk n ct h]
+  exact model_eq_spec_boxOpenEasy_decision_boxPrims buf ct n pk sk
+
+/-- `crypto_box_open_detached` against libsodium's, same hypothesis -/
+theorem model_eq_sodium_boxOpenDetached (buf tag c n pk sk : Bytes) (ht : tag.length = 16)
+    (h : Spec.X25519.x25519 sk pk ≠ zeros 32) :
+    boxOpenDetached boxPrims buf tag c n pk sk
+      = if buf.length < c.length then ⟨.panic, buf⟩
+        else match Spec.NaCl.boxOpenSodium pk sk n (tag ++ c) with
+          | some m => ⟨.ok (), m ++ buf.drop c.length⟩
+          | none => ⟨.err, buf⟩ := by
+  rw [Spec.NaCl.boxOpenSodium_eq pk sk n _ h]
+  exact model_eq_spec_boxOpenDetached_boxPrims buf tag c n pk sk ht
+
+/-- `DryocBox::decrypt` against libsodium's `crypto_box_open_easy` on `tag ‖ data`, same hypothesis -/
+theorem model_eq_sodium_objBoxDecrypt (b : Box) (n pk sk : Bytes) (ht : b.tag.length = 16)
+    (h : Spec.X25519.x25519 sk pk ≠ zeros 32) :
+    objBoxDecrypt boxPrims b n pk sk
+      = match Spec.NaCl.boxOpenSodium pk sk n (b.tag ++ b.data) with
+        | some m => .ok m
+        | none => .err := by
+  rw [Spec.NaCl.boxOpenSodium_eq pk sk n _ h]
+  exact model_eq_spec_objBoxDecrypt_boxPrims b n pk sk ht
+
+/-- `crypto_box_seal` = libsodium's `crypto_box_seal` (ephemeral secret `esk`) whenever `X25519(esk, rpk)` is not
+all-zero (and, as for every sealed-box theorem, with the ladder's ephemeral public key: `C05.BaseEdwardsOK`) -/
+theorem model_eq_sodium_boxSeal (ct0 m rpk esk : Bytes) (h : ct0.length = m.length + 48)
+    (hs : Spec.X25519.x25519 esk rpk ≠ zeros 32) :
+    ∃ b, boxSeal boxPrims ct0 m rpk esk = .ok b ∧ Spec.NaCl.boxSealSodium rpk esk m = some b :=
+  ⟨_, model_eq_spec_boxSeal_boxPrims ct0 m rpk esk h, Spec.NaCl.boxSealSodium_eq rpk esk m hs⟩
+
+/-- **complete decision of `crypto_box_seal_open` against libsodium's `crypto_box_seal_open`**, whenever the shared
+secret of the recipient's secret key and the transmitted ephemeral key (first 32 bytes) is not all-zero -/
+theorem model_eq_sodium_sealOpen (buf ct rpk rsk : Bytes)
+    (h : Spec.X25519.x25519 rsk (ct.take 32) ≠ zeros 32) :
+    sealOpen boxPrims buf ct rpk rsk
+      = if buf.length ≠ ct.length - 48 then ⟨.err, buf⟩
+        else match Spec.NaCl.sealOpenSodium rpk rsk ct with
+          | some m => ⟨.ok (), m⟩
+          | none => ⟨.err, buf⟩ := by
+  rw [Spec.NaCl.sealOpenSodium_eq rpk rsk ct h]
+  exact model_eq_spec_sealOpen_decision_boxPrims buf ct rpk rsk
+
+/-- `DryocBox::unseal` against libsodium's `crypto_box_seal_open` of `to_vec()`, same hypothesis on the box's
+ephemeral key -/
+theorem model_eq_sodium_objUnseal (b : Box) (epk rpk rsk : Bytes) (he : b.epk = some epk)
+    (hel : epk.length = 32) (ht : b.tag.length = 16) (h : Spec.X25519.x25519 rsk epk ≠ zeros 32) :
+    objUnseal boxPrims b rpk rsk
+      = match Spec.NaCl.sealOpenSodium rpk rsk (toBytes b) with
+        | some m => .ok m
+        | none => .err := by
+  have htk : (toBytes b).take 32 = epk := by
+    unfold toBytes
+    rw [he]
+    simp only [List.append_assoc]
+    exact List.take_left' hel
+  rw [Spec.NaCl.sealOpenSodium_eq rpk rsk _ (by rw [htk]; exact h)]
+  exact model_eq_spec_objUnseal_boxPrims b epk rpk rsk he hel ht
+
+/-- non-vacuity of the hypothesis `x25519 sk pk ≠ 0³²`: the RFC 7748 §6.1 key pairs (shared secret `4a 5d 9d …`) -/
+example : Spec.X25519.x25519 rfcAliceSk (Spec.X25519.x25519Base rfcBobSk) ≠ zeros 32 := by
+  rw [x25519_dh_agreement_rfc.2]; decide
+
+example : Spec.NaCl.beforenmSodium (Spec.X25519.x25519Base rfcBobSk) rfcAliceSk
+    = some (beforenm boxPrims (Spec.X25519.x25519Base rfcBobSk) rfcAliceSk) :=
+  model_eq_sodium_beforenm _ _ (by rw [x25519_dh_agreement_rfc.2]; decide)
+
+/-! ### the honest witnesses: small-order public keys -/
+
+/-- X25519 of a small-order u-coordinate (u ≡ 0, 1, −1 or one of the two order-8 values mod p, any encoding) is
+all-zero for EVERY 32-byte secret key (`C05.scalarmult_small_order`) -/
+theorem x25519_small_order (sk u : Bytes) (hsk : sk.length = 32)
+    (hu : C05.SmallOrder (Spec.X25519.decodeUCoordinate u)) :
+    Spec.X25519.x25519 sk u = zeros 32 := by
+  rw [← C05.scalarmult_eq_x25519 sk u hsk]
+  exact C05.scalarmult_small_order sk u hsk hu
+
+/-- the key dryoc's `crypto_box_beforenm` computes for EVERY small-order public key and EVERY secret key: a constant
+anyone can compute -/
+def smallOrderKey : Bytes := Spec.Salsa20.hsalsa20 (zeros 32) (zeros 16)
+
+theorem beforenm_small_order (sk u : Bytes) (hsk : sk.length = 32)
+    (hu : C05.SmallOrder (Spec.X25519.decodeUCoordinate u)) :
+    beforenm boxPrims u sk = smallOrderKey ∧ Spec.NaCl.beforenmSodium u sk = none := by
+  have hx := x25519_small_order sk u hsk hu
+  refine ⟨?_, (Spec.NaCl.beforenmSodium_none_iff u sk).mpr hx⟩
+  show Spec.Salsa20.hsalsa20 (Spec.X25519.x25519 sk u) (zeros 16) = _
+  rw [hx]; rfl
+
+/-- opening NaCl's secretbox under its own key returns the message (driver's primitives, 24-byte nonce) -/
+theorem openEasy_secretbox_boxPrims (k n m buf : Bytes) (hn : 24 ≤ n.length) (hbuf : buf.length = m.length) :
+    openEasy boxPrims buf (Spec.NaCl.secretbox k n m) n k = ⟨.ok (), m⟩ ∧
+    (Spec.NaCl.secretbox k n m).length = m.length + 16 := by
+  obtain ⟨ct, h1, hl, h2⟩ := secretbox_roundtrip_concrete k n m buf hn hbuf
+  rw [model_eq_spec_easy_boxPrims _ m n k (by simp [zeros])] at h1
+  injection h1 with h1
+  subst h1
+  exact ⟨h2, hl⟩
+
+/-- **F17, witness for `crypto_box_open_easy`.**  Let `u` be a small-order public key (any of its encodings) and
+`c = secretbox(HSalsa20(0³², 0¹⁶), n, m)` — a box ANYONE can compute, no secret involved.  Then for EVERY 32-byte
+recipient secret key dryoc's `crypto_box_open_easy(c, n, u, sk)` ACCEPTS and returns `m`, while libsodium's
+`crypto_box_beforenm(u, sk)` — hence `crypto_box_open_easy` — returns −1. -/
+theorem boxOpenEasy_accepts_small_order (u sk n m buf : Bytes) (hsk : sk.length = 32)
+    (hu : C05.SmallOrder (Spec.X25519.decodeUCoordinate u)) (hn : 24 ≤ n.length)
+    (hbuf : buf.length = m.length) :
+    boxOpenEasy boxPrims buf (Spec.NaCl.secretbox smallOrderKey n m) n u sk = ⟨.ok (), m⟩ ∧
+    Spec.NaCl.beforenmSodium u sk = none ∧
+    Spec.NaCl.boxOpenSodium u sk n (Spec.NaCl.secretbox smallOrderKey n m) = none := by
+  obtain ⟨hk, hnone⟩ := beforenm_small_order sk u hsk hu
+  refine ⟨?_, hnone, ?_⟩
+  · rw [boxOpenEasy_eq_openEasy, hk]
+    exact (openEasy_secretbox_boxPrims smallOrderKey n m buf hn hbuf).1
+  · unfold Spec.NaCl.boxOpenSodium
+    rw [hnone]; rfl
+
+/-- … with the all-zero encoding of u = 0 (the simplest of libsodium's seven blacklisted encodings) -/
+theorem boxOpenEasy_accepts_zero_pk (sk n m buf : Bytes) (hsk : sk.length = 32) (hn : 24 ≤ n.length)
+    (hbuf : buf.length = m.length) :
+    boxOpenEasy boxPrims buf (Spec.NaCl.secretbox smallOrderKey n m) n (zeros 32) sk = ⟨.ok (), m⟩ ∧
+    Spec.NaCl.beforenmSodium (zeros 32) sk = none :=
+  let h := boxOpenEasy_accepts_small_order (zeros 32) sk n m buf hsk
+    (C05.smallOrder_decode _ (by decide)) hn hbuf
+  ⟨h.1, h.2.1⟩
+
+/-- the sending side: `crypto_box_easy` TO a small-order public key succeeds in dryoc (with the public constant
+`smallOrderKey`, so the "box" protects nothing) where libsodium's `crypto_box_easy` returns −1 -/
+theorem boxEasy_accepts_small_order (u sk n m ct0 : Bytes) (hsk : sk.length = 32)
+    (hu : C05.SmallOrder (Spec.X25519.decodeUCoordinate u)) (h : ct0.length = m.length + 16) :
+    boxEasy boxPrims ct0 m n u sk = .ok (Spec.NaCl.secretbox smallOrderKey n m) ∧
+    Spec.NaCl.boxSodium u sk n m = none := by
+  obtain ⟨hk, hnone⟩ := beforenm_small_order sk u hsk hu
+  refine ⟨?_, ?_⟩
+  · rw [boxEasy_eq_easy boxPrims ct0 m n u sk (by omega), hk]
+    exact model_eq_spec_easy_boxPrims ct0 m n smallOrderKey h
+  · unfold Spec.NaCl.boxSodium
+    rw [hnone]; rfl
+
+/-- **F17, witness for `crypto_box_seal_open`.**  A "sealed box" whose first 32 bytes are a small-order ephemeral
+key `u` (for instance 0³²) followed by `secretbox(HSalsa20(0³², 0¹⁶), BLAKE2b-24(u ‖ rpk), m)` — computable by anyone
+who knows the recipient's PUBLIC key — is ACCEPTED by dryoc's `crypto_box_seal_open` for EVERY 32-byte recipient
+secret key, with plaintext `m`; libsodium's `crypto_box_seal_open` returns −1 (its `crypto_box_beforenm` fails). -/
+theorem sealOpen_accepts_small_order_epk (u rpk rsk m buf : Bytes) (hul : u.length = 32) (hsk : rsk.length = 32)
+    (hu : C05.SmallOrder (Spec.X25519.decodeUCoordinate u)) (hbuf : buf.length = m.length) :
+    sealOpen boxPrims buf (u ++ Spec.NaCl.secretbox smallOrderKey (Spec.NaCl.sealNonce u rpk) m) rpk rsk
+      = ⟨.ok (), m⟩ ∧
+    Spec.NaCl.sealOpenSodium rpk rsk (u ++ Spec.NaCl.secretbox smallOrderKey (Spec.NaCl.sealNonce u rpk) m)
+      = none := by
+  have hnl : 24 ≤ (Spec.NaCl.sealNonce u rpk).length := by
+    have := sealNonce_boxPrims_length u rpk
+    show 24 ≤ (sealNonce boxPrims u rpk).length
+    omega
+  obtain ⟨hopen, hlen⟩ := openEasy_secretbox_boxPrims smallOrderKey (Spec.NaCl.sealNonce u rpk) m buf hnl hbuf
+  obtain ⟨hk, hnone⟩ := beforenm_small_order rsk u hsk hu
+  have ht : (u ++ Spec.NaCl.secretbox smallOrderKey (Spec.NaCl.sealNonce u rpk) m).take 32 = u :=
+    List.take_left' hul
+  have hd : (u ++ Spec.NaCl.secretbox smallOrderKey (Spec.NaCl.sealNonce u rpk) m).drop 32
+      = Spec.NaCl.secretbox smallOrderKey (Spec.NaCl.sealNonce u rpk) m := List.drop_left' hul
+  have hl : (u ++ Spec.NaCl.secretbox smallOrderKey (Spec.NaCl.sealNonce u rpk) m).length = m.length + 48 := by
+    rw [List.length_append, hlen, hul]; omega
+  constructor
+  · unfold sealOpen
+    rw [hl, if_neg (by simp [SEALBYTES]), if_neg (by simp [SEALBYTES]; omega)]
+    simp only [ht, hd]
+    rw [boxOpenEasy_eq_openEasy, hk]
+    exact hopen
+  · unfold Spec.NaCl.sealOpenSodium
+    rw [hl, if_neg (by omega)]
+    simp only [ht]
+    unfold Spec.NaCl.boxOpenSodium
+    rw [hnone]; rfl
+
+/-- … with ephemeral key 0³² -/
+theorem sealOpen_accepts_zero_epk (rpk rsk m buf : Bytes) (hsk : rsk.length = 32) (hbuf : buf.length = m.length) :
+    sealOpen boxPrims buf (zeros 32 ++ Spec.NaCl.secretbox smallOrderKey (Spec.NaCl.sealNonce (zeros 32) rpk) m)
+        rpk rsk = ⟨.ok (), m⟩ ∧
+    Spec.NaCl.sealOpenSodium rpk rsk
+        (zeros 32 ++ Spec.NaCl.secretbox smallOrderKey (Spec.NaCl.sealNonce (zeros 32) rpk) m) = none :=
+  sealOpen_accepts_small_order_epk (zeros 32) rpk rsk m buf (by simp [zeros]) hsk
+    (C05.smallOrder_decode _ (by decide)) hbuf
+
+/-- non-vacuity: the hypotheses of the witnesses on concrete inputs (Bob's RFC 7748 secret key, a 3-byte message) -/
+example : boxOpenEasy boxPrims (zeros 3) (Spec.NaCl.secretbox smallOrderKey (zeros 24) toyMsg) (zeros 24)
+      (zeros 32) rfcBobSk = ⟨.ok (), toyMsg⟩ ∧ Spec.NaCl.beforenmSodium (zeros 32) rfcBobSk = none :=
+  boxOpenEasy_accepts_zero_pk rfcBobSk (zeros 24) toyMsg (zeros 3) rfl (by decide) rfl
+
+example : (sealOpen boxPrims (zeros 3)
+      (zeros 32 ++ Spec.NaCl.secretbox smallOrderKey (Spec.NaCl.sealNonce (zeros 32) (zeros 32)) toyMsg)
+      (zeros 32) rfcBobSk).res = .ok () :=
+  by rw [(sealOpen_accepts_zero_epk (zeros 32) rfcBobSk toyMsg (zeros 3) rfl rfl).1]
+
+/-- non-vacuity of `model_eq_sodium_sealOpen` / `model_eq_sodium_objUnseal`: a sealed box whose first 32 bytes are
+Alice's RFC 7748 public key, opened with Bob's secret key — the shared secret is the RFC's, not all-zero -/
+example (t : Bytes) :
+    Spec.X25519.x25519 rfcBobSk ((Spec.X25519.x25519Base rfcAliceSk ++ t).take 32) ≠ zeros 32 := by
+  have hl : (Spec.X25519.x25519Base rfcAliceSk).length = 32 := SecretBoxExtra2.x25519Base_length rfcAliceSk
+  rw [List.take_left' hl, ← x25519_dh_agreement_rfc.1, x25519_dh_agreement_rfc.2]; decide
+
+/-- non-vacuity of `x25519_small_order` / `beforenm_small_order` / `boxEasy_accepts_small_order`: Bob's 32-byte secret
+key and the encoding `01 00 … 00` of the order-4 point u = 1 -/
+example : rfcBobSk.length = 32 ∧ C05.SmallOrder (Spec.X25519.decodeUCoordinate (1 :: zeros 31)) :=
+  ⟨rfl, C05.smallOrder_decode _ (by decide)⟩
+example : boxEasy boxPrims (zeros 19) toyMsg (zeros 24) (1 :: zeros 31) rfcBobSk
+      = .ok (Spec.NaCl.secretbox smallOrderKey (zeros 24) toyMsg) ∧
+    Spec.NaCl.boxSodium (1 :: zeros 31) rfcBobSk (zeros 24) toyMsg = none :=
+  boxEasy_accepts_small_order _ _ _ _ _ rfl (C05.smallOrder_decode _ (by decide)) rfl
+/-- non-vacuity of `openEasy_secretbox_boxPrims` -/
+example : openEasy boxPrims (zeros 3) (Spec.NaCl.secretbox toyKey (zeros 24) toyMsg) (zeros 24) toyKey
+    = ⟨.ok (), toyMsg⟩ :=
+  (openEasy_secretbox_boxPrims toyKey (zeros 24) toyMsg (zeros 3) (by decide) rfl).1
+
+/-- all seven blacklisted encodings (and their bit-255 variants, `C05.smallOrder_decode_high`) qualify -/
+example : ∀ u ∈ C05.smallOrderEncodings, C05.SmallOrder (Spec.X25519.decodeUCoordinate u) :=
+  C05.smallOrder_decode
+
+end Sodium
+
 end DryocVerif.Properties.C01
+
+section AxiomCheck
+open DryocVerif.Properties.C01
+#print axioms objSeal_toBytes_eq_boxSeal
+#print axioms beforenmSodium_eq
+#print axioms beforenmSodium_none_iff
+#print axioms model_eq_sodium_beforenm
+#print axioms model_eq_sodium_boxEasy
+#print axioms model_eq_sodium_boxOpenEasy
+#print axioms model_eq_sodium_boxOpenDetached
+#print axioms model_eq_sodium_objBoxDecrypt
+#print axioms model_eq_sodium_boxSeal
+#print axioms model_eq_sodium_sealOpen
+#print axioms model_eq_sodium_objUnseal
+#print axioms x25519_small_order
+#print axioms beforenm_small_order
+#print axioms openEasy_secretbox_boxPrims
+#print axioms boxOpenEasy_accepts_small_order
+#print axioms boxOpenEasy_accepts_zero_pk
+#print axioms boxEasy_accepts_small_order
+#print axioms sealOpen_accepts_small_order_epk
+#print axioms sealOpen_accepts_zero_epk
+end AxiomCheck
